@@ -324,6 +324,10 @@ class C07(Prop):
             "incl. the composeinfo forest rebuild and every treeinfo section); oracle: corrupted => exception; valid => loaded; every part of a loaded object satisfies the catalogue")
     assumptions = ["json.load / configparser are the trusted parsers; the INI document handed to the model is configparser's own parse of the same text",
                    "bool()-coerced fields (bootable, final, is_layered, internal) have no rejecting set and are not corrupted",
+                   "the rule of a field is applied AFTER the reader's documented coercion: a falsy label in a document ('' 0 false [] {} null) is read as 'no label' "
+                   "(`data.get('label') or None`) and the document loads (decided: not a C07 violation; what C07 guarantees is that the LOADED object satisfies "
+                   "the write-side constraints, which it does); such documents are generated with expectation 'accept'. On the write side (C06) a blank label '' "
+                   "in an object is outside the label's domain and must be refused",
                    "the readers a version gate selects for documents older than 1.0 (composeinfo, rpms <= 0.3) / 0.4 (treeinfo, incl. files without a header) are not "
                    "modelled (C05): the model answers Other there, C07_sound_* say nothing about such documents; the value of float() is modelled for plain decimal "
                    "notation only (its syntax errors exactly)"]
@@ -403,6 +407,11 @@ class C07(Prop):
                     m, tag = rng.choice(sp)
                     n += 1; yield mk([m], tag, "reject"); continue
                 kind = "value"
+            if kind == "value" and fmt in JSON_FORMATS and rng.random() < 0.12:
+                # the reader's documented coercions decide, not the raw value: `label or None` reads every FALSY label ("" 0 false [] {} null)
+                # as "no label", bool() reads anything as a flag -- such documents load, and the loaded object satisfies the catalogue
+                f, v = rng.choice([("label", x) for x in ["", 0, False, [], {}, None, {"$float": "0.0"}]] + [("final", x) for x in ["yes", 0, [], "False", None]])
+                n += 1; yield mk([{"path": ["payload", "compose", f], "value": v}], "coerced-valid:%s" % f, "accept"); continue
             if kind == "value":
                 if fmt in JSON_FORMATS:
                     m, tag, _ = value_mod(fmt, doc, rng, T)
